@@ -204,6 +204,7 @@ type Config struct {
 	Logger   string   // "", "channel", "codec", "log"
 	Daemon   bool     // own the background cleanup goroutine (C17)
 	NoExpire bool
+	Clock    *time.Time // share the virtual clock of another world
 }
 
 // TrigEvent is one trigger callback.
@@ -219,7 +220,7 @@ type World struct {
 	C        *column.Collection
 	M        *Model
 	Commits  []commit.Commit // every commit emitted so far (deep copies), emission order
-	Now      time.Time
+	Clock    *time.Time      // virtual clock (shared with twins)
 	Daemon   *vsched.Daemon
 	TrigLog  map[string]*[]TrigEvent
 	Poisoned bool // a panic happened inside the collection: never touch it again
@@ -293,7 +294,7 @@ var closedCh = func() chan struct{} { c := make(chan struct{}); close(c); return
 func (c daemonCtx) Done() <-chan struct{} {
 	if c.w.Daemon.Park() {
 		select {
-		case c.w.tick <- c.w.Now:
+		case c.w.tick <- c.w.Now():
 		default:
 		}
 		return nil
@@ -303,9 +304,13 @@ func (c daemonCtx) Done() <-chan struct{} {
 
 // NewWorld creates the collection and the empty model.
 func NewWorld(cfg Config) *World {
-	w := &World{Cfg: cfg, Now: T0, TrigLog: map[string]*[]TrigEvent{}, Bulk: map[uint32]bool{}}
+	w := &World{Cfg: cfg, Clock: cfg.Clock, TrigLog: map[string]*[]TrigEvent{}, Bulk: map[uint32]bool{}}
+	if w.Clock == nil {
+		t0 := T0
+		w.Clock = &t0
+	}
 	w.M = &Model{Live: map[uint32]*Row{}, Ghost: map[string]map[uint32]Val{}, KeyCol: cfg.Key}
-	shimtime.NowHook = func() time.Time { return w.Now }
+	shimtime.NowHook = func() time.Time { return *w.Clock }
 	opts := column.Options{Capacity: cfg.Capacity}
 	switch cfg.Logger {
 	case "channel":
@@ -336,6 +341,12 @@ func NewWorld(cfg Config) *World {
 	}
 	return w
 }
+
+// Now is the current virtual time.
+func (w *World) Now() time.Time { return *w.Clock }
+
+// Advance moves the virtual clock.
+func (w *World) Advance(d time.Duration) { *w.Clock = w.Clock.Add(d) }
 
 // Close releases the collection (never called on a poisoned instance's locks).
 func (w *World) Close() {
@@ -750,7 +761,7 @@ func (w *World) ApplyPending(p *pending) {
 		case x.SetTTL:
 			var n int64
 			if x.TTL > 0 {
-				n = w.Now.Add(x.TTL).UnixNano()
+				n = w.Now().Add(x.TTL).UnixNano()
 			}
 			r.V[ExpireCol] = Val{N: uint64(n)}
 		case x.Extend:
@@ -868,9 +879,8 @@ func (w *World) Twin(cfg Config, withIndexes bool) *World {
 	cfg.Cols = append([]ColDef{}, w.M.Cols...)
 	cfg.Indexes = nil
 	cfg.Logger = ""
-	cfg.Daemon = false
+	cfg.Clock = w.Clock
 	t := NewWorld(cfg)
-	shimtime.NowHook = func() time.Time { return w.Now }
 	if withIndexes {
 		for _, ix := range w.M.Indexes {
 			t.C.CreateIndex(ix.Name, ix.Col, ix.Rule)
@@ -900,3 +910,34 @@ func (w *World) ReplayInto(t *World, from int) error {
 
 // RecErr reports a failure of the recording logger's own round trip.
 func (w *World) RecErr() error { return w.recErr }
+
+// Clone deep-copies the rows of a model (schema and index definitions are shared).
+func (m *Model) Clone() *Model {
+	c := &Model{Cols: m.Cols, Indexes: m.Indexes, KeyCol: m.KeyCol, Live: map[uint32]*Row{}, Ghost: map[string]map[uint32]Val{}}
+	for off, r := range m.Live {
+		nr := &Row{V: make(map[string]Val, len(r.V))}
+		for k, v := range r.V {
+			nr.V[k] = v
+		}
+		c.Live[off] = nr
+	}
+	return c
+}
+
+// Mix returns a model whose rows in the listed blocks come from next and all
+// others from prev (commits are per block, so a multi-block transaction applied up
+// to some block is exactly such a mix).
+func Mix(prev, next *Model, fromNext map[uint32]bool) *Model {
+	c := &Model{Cols: next.Cols, Indexes: next.Indexes, KeyCol: next.KeyCol, Live: map[uint32]*Row{}, Ghost: map[string]map[uint32]Val{}}
+	for off, r := range prev.Live {
+		if !fromNext[off>>14] {
+			c.Live[off] = r
+		}
+	}
+	for off, r := range next.Live {
+		if fromNext[off>>14] {
+			c.Live[off] = r
+		}
+	}
+	return c
+}
